@@ -138,6 +138,14 @@ def handle : Handler
         | some x => some x
         | none => if opOut.length < ops.length then some "history-not-completed" else judgeFinals j finals
       verdict v modelOut out j
+  | ["conc", _seed, _g, _n], out =>
+    -- concurrent use of one real pool: whatever the schedule, every count must be zero
+    -- (C16_pool_concurrent_get / _finish / _close); nothing else is compared
+    let expect := ["nil=0", "panic=0", "incons=0", "stuck=0", "leak=0"]
+    if out = expect then "OK nt b=concurrent-pool"
+    else
+      let bad := out.filter (fun t => !expect.contains t)
+      s!"VIOL concurrent-pool:{",".intercalate bad} model={" ".intercalate expect}"
   | _, _ => "BAD c16 line"
 
 end GB.C16
